@@ -62,6 +62,35 @@ def check_c15(ck, tier, replay=None):
                 A.prove_equal(ck, 'two charges: E = q1 q2 / R', A.rf(e1), A.rf(QA[0]) * A.rf(QB[0]) / R, pc1, TO)
             ck.sample({'unit': 'CalcStaticEnergy_site ranks (0,0)', 'energy': str(eAB[0][1])[:200]})
         # signed-axis rotations of positions with the moments left alone would need StaticSite::Rotate: outside in this round
+    # ---- independent oracle: the Cartesian multipole expansion, E = [qB + muB.grad + Theta_B:grad grad/3][qA - muA.grad + Theta_A:grad grad/3] (1/R),
+    #      with the traceless quadrupoles obtained from the library's own CalculateCartesianMultipole and the derivatives of 1/R taken by AD
+    def cart(Q, rank):
+        def body(it):
+            q = alloc_doubles(it, 'Q', Q); out = alloc_doubles(it, 'out', [F(0)] * 9); it.call('@h_cart', [q, rank, out]); return read_doubles(it, out, 9)
+        r, _ = explore(mod, models.all_models(), body, parsed=parsed); return r[0][1]
+    for rA, rB in pairs:
+        qa = mask(QA, rA); qb = mask(QB, rB)
+        eAB, _ = energy(mod, zero3, qa, rA, x, qb, rB, parsed)
+        thA = cart(qa, rA); thB = cart(qb, rB)
+        for pc1, e1 in eAB:
+            A = Algebra(nonneg_check=nonneg(pc1))
+            try:
+                T = A.rf(z3.RealVal(1)) / A.rf(models.UF['sqrt'](x[0] * x[0] + x[1] * x[1] + x[2] * x[2]))
+                D = lambda f, k: A.total_deriv(f, 'x%d' % k)
+                def op(f, q, mu, th, sign):
+                    r = A.rf(q) * f
+                    for k in range(3):
+                        if not (isinstance(mu[k], F) and mu[k] == 0): r = r + A.rf(z3.RealVal(sign)) * A.rf(mu[k]) * D(f, k)
+                    if any(not (isinstance(v, F) and v == 0) for v in th):
+                        for i in range(3):
+                            di = D(f, i)
+                            for j in range(3):
+                                r = r + A.rf(z3.RealVal(F(1, 3))) * A.rf(th[3 * i + j]) * D(di, j)
+                    return r
+                VA = op(T, qa[0], qa[1:4], thA, -1)              # potential of A's multipoles (A at the origin) at r
+                Eref = op(VA, qb[0], qb[1:4], thB, +1)           # energy of B's multipoles in that potential
+                A.prove_equal(ck, 'ranks (%d,%d): energy = Cartesian multipole expansion from derivatives of 1/R (independent oracle)' % (rA, rB), A.rf(e1), Eref, pc1, TO)
+            except TermCap as e: ck.inconc('ranks (%d,%d) oracle: %s' % (rA, rB, e))
     # ---- field on the polarisable site = derivative of the pair energy with respect to its dipole components ----
     for r1, r2 in ((0, 1), (1, 1), (2, 1), (2, 2)) if tier == 'quick' else pairs:
         if r2 < 1: continue
@@ -138,7 +167,7 @@ def _num(v, d=0.0):
 def native_bin():
     src = os.path.join(common.workdir(), 'c15drv.cc')
     open(src, 'w').write('#include "%s"\n#include <cstdio>\nint main(){ char c[8]; while(scanf("%%7s",c)==1){ double pa[3],qa[9],pb[3],qb[9],out[4]; long ra,rb; for(int i=0;i<3;i++) scanf("%%la",&pa[i]); for(int i=0;i<9;i++) scanf("%%la",&qa[i]); scanf("%%ld",&ra); for(int i=0;i<3;i++) scanf("%%la",&pb[i]); for(int i=0;i<9;i++) scanf("%%la",&qb[i]); scanf("%%ld",&rb); if(c[0]==\'e\') printf("%%a\\n",h_energy(pa,qa,ra,pb,qb,rb)); else { h_field(pa,qa,ra,pb,qb,rb,out); printf("%%a %%a %%a %%a\\n",out[0],out[1],out[2],out[3]); } } }\n' % common.harness_path(HARNESS))
-    return common.native_build([src], 'C15_native', extra=['-I' + common.REPO], cxx=common.CLANG)
+    return common.native_build([src], 'C15_native', extra=['-I' + common.REPO], defs=['VERIF_NO_CART'], cxx=common.CLANG)
 
 def validate(ck, mod):
     rnd = random.Random(common.SEED); parsed = {}
